@@ -2,6 +2,4 @@
 #include "sim.h"
 Sim *make_oneshot_sim() { return nullptr; }
 Sim *make_dispatch_sim() { return nullptr; }
-Sim *make_fipsgate_sim() { return nullptr; }
-Sim *make_fipsrace_sim() { return nullptr; }
 Sim *make_shared_sim() { return nullptr; }
